@@ -174,7 +174,9 @@ def one_case(ctx, k):
         n_variants = ctx.scale(3, 6)
         for v in range(n_variants):
             cores = rng.choice([2, 2, 3, 4] if ctx.tier == "quick" else [2, 3, 4, 6, 8])
-            bufsize = max(300, total_bytes // rng.choice([2, 3, 5, 9, 20, 60]))
+            # the (hidden) buffer size must hold at least one record (pair)
+            biggest = max(len(r[0]) + 2 * len(r[1]) + 8 for r in c["recs1"] + (c["recs2"] or []))
+            bufsize = max(4 * biggest + 64, total_bytes // rng.choice([2, 3, 5, 9, 20, 60]))
             if rng.random() < 0.2:
                 bufsize = rng.choice([total_bytes * 2 + 1000, 4000000])
             pseed = rng.getrandbits(30)
